@@ -217,6 +217,8 @@ func rulesC04(c *Ctx) {
 	// tree nests one level per key that is a proper prefix of the next, up to the bit length a key can have. Either the
 	// bound covers that, or the tree refuses keys long enough to exceed it (a dominating length test on Insert's key).
 	c04Depth(c)
+	childNodeReadRule(c, "C04.deref")
+	atomicRules(c, "C04.atomic", []string{"storage/mkvs.(*cache).tryRemoveNode"})
 	// (h) prefix fetches seek every requested prefix; (i) the reported write log is collected only while hashing
 	c04Prefix(c)
 	c04WriteLogSource(c, ix)
@@ -289,6 +291,7 @@ func rulesC12(c *Ctx) {
 	verifierCore(c, "C12.verify")
 	c12KeyFormats(c)
 	rulesC12Round2(c)
+	c12Round3(c)
 	const rc = "storage/mkvs/checkpoint.restoreChunk"
 	if fn := c.needFn(rule, rc); fn != nil {
 		imp := union("import{NewBatch,doRestoreChunk,Commit}", CallsTo(fn, "", "storage/mkvs/db/api.(NodeDB).NewBatch", ""), CallsTo(fn, "", "storage/mkvs/checkpoint.doRestoreChunk", ""), CallsTo(fn, "", "storage/mkvs/db/api.(Batch).Commit", ""))
@@ -460,6 +463,7 @@ func rulesC13(c *Ctx) {
 	c13Hops(c)
 	c13Resolvable(c)
 	rulesC13Round2(c)
+	c13Round3(c)
 	const rule = "C13.commitknown"
 	const cwh = "storage/mkvs.(*tree).commitWithHooks"
 	if fn := c.needFn(rule, cwh); fn != nil {
@@ -678,8 +682,9 @@ func c12KeyFormats(c *Ctx) {
 // from the end root towards the start root; the hops must be replayed in the
 // opposite order (start towards end), otherwise a key written in two hops ends
 // with the older value (F10).
-func c13Hops(c *Ctx) {
-	const rule = "C13.hops"
+func c13Hops(c *Ctx) { hopsRule(c, "C13.hops") }
+
+func hopsRule(c *Ctx, rule string) {
 	search := c.needFn(rule, "storage/mkvs/db/badger.(*badgerNodeDB).GetWriteLog$2")
 	if search == nil {
 		return
